@@ -34,6 +34,8 @@ def run_kani(harnesses, profile, repo='/repo', jobs=12, timeout=900, crate='kani
     for h in harnesses:
         cmd += ['--harness', prefix + h]
     t0 = time.time()
+    # development aid for seeded runs only (a shorter limit can only turn a verdict into UNDECIDED, never into a pass)
+    timeout = min(timeout, int(os.environ.get('VERIF_KANI_TIMEOUT', timeout)))
     e = env_for(profile)
     if target:
         e['CARGO_TARGET_DIR'] = os.path.join(WORK, target + '-' + profile)
